@@ -49,7 +49,9 @@ def run(conf, tier, seed, replay=None):
             rp = json.load(open(replay))
             script_path = os.path.join(sc, "replay-scripts.ndjson")
             with open(script_path, "w") as f:
-                f.write(json.dumps(rp["segment"]) + "\n")
+                # VERIF_REPLAY_TIMES=N: the segment is executed N times (schedule-dependent outcomes: how often does it differ?)
+                for _ in range(max(1, int(os.environ.get("VERIF_REPLAY_TIMES", "1")))):
+                    f.write(json.dumps(rp["segment"]) + "\n")
         elif conf.get("gen"):
             script_path = os.path.join(sc, "scripts.ndjson")
             n = 0
